@@ -366,6 +366,18 @@ Section Req.
     if split then JObj (combine (d_states desc) (map (json_safe_value classify) fin))
     else JArr (map (json_safe_value classify) fin).
 
+  (** the request names catalogued model [m], whose InitialiseStates returns [st], and
+      supplies at least one of its inputs, every supplied one with [len] values *)
+  Definition runnable (cat : catalog) (req : request) (m : model) (st : list T) (len : nat) : Prop :=
+    jstring_eqb (q_name req) [] = false /\ cat (q_name req) = Some m /\
+    m_init m (resolved_params (m_desc m) req) = Some st /\
+    exists n0 v0 rest, found_inputs (m_desc m) req = (n0, v0) :: rest /\ length v0 = len /\
+                       first_bad len rest = None.
+
+  (** the result of the one-cell run has the shape of the (nout x len) array the kernel writes into *)
+  Definition well_shaped (desc : description) (len : nat) (outs : list (list T)) : Prop :=
+    length outs = length (d_outputs desc) /\ Forall (fun r => length r = len) outs.
+
   Inductive req_class :=
   | CNoName
   | CUnknown
